@@ -47,7 +47,12 @@ pub struct Spec {
     pub chunk: u8,
     /// cut the text after this fraction (u16 / 65536) of its bytes
     pub truncate: Option<u16>,
+    /// append bytes after the complete document
+    #[serde(default)]
+    pub trailing: Option<u8>,
 }
+
+const TRAILING: &[&str] = &["x", "]", ",", "null", " {}", "\n[]", "0", "\"\"", "}", " \t\n", "//c", "\u{0}"];
 
 /// A reader that hands out at most `chunk` bytes per call.
 pub struct ChunkReader<'a> {
@@ -168,7 +173,7 @@ impl Property for C17 {
         "Generated: valid documents of every public type (signed block, metadata wrapper, layout, link, key, signature, rule, step, \
          inspection, statement, predicate; through the hook also LinkV02, SLSA v0.1/v0.2, both statement types, TimeStamp, envelope file), \
          a share of them with one tree edit (often invalid), rendered with random member order, whitespace and per-character escape \
-         spelling (e.g. \\u0043REATE), optionally truncated; no duplicate member names. Oracle: serde_json::from_str, from_slice, from_reader \
+         spelling (e.g. \\u0043REATE), optionally truncated or followed by trailing bytes (junk, whitespace, a second document); no duplicate member names. Oracle: serde_json::from_str, from_slice, from_reader \
          (reader returning 1-7 bytes per call), from_str::<Value>+from_value, Json::from_slice, Json::from_reader, Json::deserialize are all \
          Err or all Ok with equal values. Non-trivial: accepted by at least one channel; distinct by (type, document, spelling)."
             .into()
@@ -180,13 +185,13 @@ impl Property for C17 {
         tier.pick(40_000, 2_000_000)
     }
     fn strategy(_tier: Tier) -> BoxedStrategy<Spec> {
-        (valid_doc(), proptest::option::weighted(0.3, tree_edit()), entropy(), 1u8..8, proptest::option::weighted(0.05, any::<u16>()))
-            .prop_map(|((kind, v), edit, spell, chunk, truncate)| {
+        (valid_doc(), proptest::option::weighted(0.3, tree_edit()), entropy(), 1u8..8, proptest::option::weighted(0.05, any::<u16>()), proptest::option::weighted(0.12, any::<u8>()))
+            .prop_map(|((kind, v), edit, spell, chunk, truncate, trailing)| {
                 let v = match edit {
                     Some(e) => apply_edit(&v, &e).map(|(v, _)| v).unwrap_or(v),
                     None => v,
                 };
-                Spec { kind, doc: J::from_value(&v), spell, chunk, truncate }
+                Spec { kind, doc: J::from_value(&v), spell, chunk, truncate, trailing }
             })
             .boxed()
     }
@@ -199,6 +204,16 @@ impl Property for C17 {
                 n -= 1;
             }
             text.truncate(n);
+        }
+        if let Some(t) = spec.trailing {
+            if t % 16 == 15 {
+                // the whole document once more
+                let again = text.clone();
+                text.push_str(&again);
+            } else {
+                text.push_str(TRAILING[t as usize % TRAILING.len()]);
+            }
+            o.class("trailing-bytes");
         }
         let chunk = spec.chunk as usize;
         use in_toto::crypto::{PublicKey, Signature};
